@@ -18,7 +18,7 @@ theorem nodeOk_of_treeClean {n : Nat} : (t : Node) → treeClean t = true → no
   | ⟨_, _, text, _, children, tail, _⟩, h => by
     simp only [treeClean, Bool.and_eq_true] at h
     simp only [nodeOk, Bool.and_eq_true]
-    exact ⟨⟨ok_of_strClean h.1.1, ok_of_strClean h.1.2⟩, kidsOk_of_kidsClean children h.2⟩
+    exact ⟨⟨ok_of_strClean h.1.1.1, ok_of_strClean h.1.1.2⟩, kidsOk_of_kidsClean children h.1.2⟩
 theorem kidsOk_of_kidsClean {n : Nat} : (ts : List Node) → kidsClean ts = true → kidsOk L n ts = true
   | [], _ => rfl
   | c :: r, h => by
@@ -65,7 +65,7 @@ theorem phFree_of_treeClean : (t : Node) → treeClean t = true → phFree t = t
   | ⟨_, _, text, _, children, tail, _⟩, h => by
     simp only [treeClean, Bool.and_eq_true] at h
     simp only [phFree, Bool.and_eq_true, Bool.not_eq_true']
-    exact ⟨⟨strClean_no_stem h.1.1, strClean_no_stem h.1.2⟩, kidsPhFree_of_kidsClean children h.2⟩
+    exact ⟨⟨strClean_no_stem h.1.1.1, strClean_no_stem h.1.1.2⟩, kidsPhFree_of_kidsClean children h.1.2⟩
 theorem kidsPhFree_of_kidsClean : (ts : List Node) → kidsClean ts = true → kidsPhFree ts = true
   | [], _ => rfl
   | c :: r, h => by
@@ -103,7 +103,7 @@ theorem atomOk_of_treeClean : (t : Node) → treeClean t = true → atomOk L t =
   | ⟨_, _, text, ta, children, tail, _⟩, h => by
     simp only [treeClean, Bool.and_eq_true] at h
     simp only [atomOk, Bool.and_eq_true, Bool.or_eq_true, Bool.not_eq_true']
-    exact ⟨Or.inr (ok_of_strClean h.1.1), kidsAtomOk_of_kidsClean children h.2⟩
+    exact ⟨⟨Or.inr (ok_of_strClean h.1.1.1), h.2⟩, kidsAtomOk_of_kidsClean children h.1.2⟩
 theorem kidsAtomOk_of_kidsClean : (ts : List Node) → kidsClean ts = true → kidsAtomOk L ts = true
   | [], _ => rfl
   | c :: r, h => by
@@ -116,20 +116,21 @@ theorem topClean_of_treeClean {t : Node} (h : treeClean t = true) : topClean L t
   obtain ⟨_, _, text, _, children, tail, _⟩ := t
   simp only [treeClean, Bool.and_eq_true] at h
   simp only [topClean, Bool.and_eq_true]
-  exact ⟨ok_of_strClean h.1.1, ok_of_strClean h.1.2⟩
+  exact ⟨ok_of_strClean h.1.1.1, ok_of_strClean h.1.1.2⟩
 
 /-- `InlineProcessor.run` on a tree of the domain: the result and the stash are well formed, no placeholder is left
     in the result, and the letters of the result are the letters of the tree -/
 theorem run_spec (hL : LetterClass L) {cfg : Cfg} (hE : EscNotLetter L cfg) {tree tree' : Node} {st : St}
     {html : List Str} (hclean : treeClean tree = true) (h : run cfg tree html = some (tree', st)) :
     stashOk L st.stash = true ∧ nodeOk L st.stash.length tree' = true ∧
-      lettersN L st.stash tree' = docLetters L tree ∧ nodeOk L 0 tree' = true := by
+      lettersN L st.stash tree' = docLetters L tree ∧ nodeOk L 0 tree' = true ∧ atomOk L tree' = true ∧
+      st.html = html := by
   unfold run at h
   have h0 : nodeOk L ({ html := html } : St).stash.length tree = true := nodeOk_of_treeClean tree hclean
   have hcov : Covered L tree [[]] := fun q m _ _ => ⟨[], by simp, List.nil_prefix⟩
-  obtain ⟨a1, a2, a3, a4, a5⟩ := runLoop_spec hL hE _ _ _ _ _ _ _ rfl h0 (atomOk_of_treeClean tree hclean) hcov
+  obtain ⟨a1, a2, a3, a4, a5, a6, a7⟩ := runLoop_spec hL hE _ _ _ _ _ _ _ rfl h0 (atomOk_of_treeClean tree hclean) hcov
     (topClean_of_treeClean hclean) h
-  refine ⟨a1, a2, ?_, ?_⟩
+  refine ⟨a1, a2, ?_, ?_, a6, a7⟩
   · rw [a3]
     simp only [lettersN, docLetters]
     rw [nodeFlat_of_phFree _ tree (phFree_of_treeClean tree hclean)]
